@@ -203,3 +203,173 @@ def sweep(ctx, thorough=False, only=None):
         shutil.rmtree(tmpdir, ignore_errors=True)
     ctx.oracle_cases('field-lattice', n, **dist)
     return n
+
+
+# ---------------------------------------------------------------------------------------------
+# file level: the same clauses through REAL files opened by the library's own parser classes
+# (write_values / read_values), in fresh processes that create all four parsers in a given order
+# ---------------------------------------------------------------------------------------------
+FILE_WORKER = r'''
+import sys, json, os, tempfile, shutil
+job = json.load(sys.stdin)
+import fixed_format_file as fff, t2data, t2incons, mulgrids
+def opener(t):
+    if t == 't2data': return lambda fn, mode: t2data.t2data_parser(fn, mode)
+    if t == 't2data_extra_precision': return lambda fn, mode: t2data.t2_extra_precision_data_parser(fn, mode)
+    if t == 't2incon': return lambda fn, mode: t2incons.t2incon_parser(fn, mode)
+    if t == 'mulgrid': return lambda fn, mode: fff.fixed_format_file(fn, mode, mulgrids.mulgrid_format_specification)   # as mulgrid.read/write do
+    raise KeyError(t)
+tmp = tempfile.mkdtemp(prefix='c02f_')
+out = []
+try:
+    # all parsers exist side by side in this process, created in the requested order
+    held = []
+    for k, t in enumerate(job['order']):
+        held.append(opener(t)(os.path.join(tmp, 'held%d.dat' % k), 'w'))
+    for n, f in enumerate(job['files']):
+        fn = os.path.join(tmp, 'f%d.dat' % n)
+        stage = 'open-w'
+        try:
+            p = opener(f['table'])(fn, 'w')
+            stage = 'write'
+            for rec, vals in f['cases']: p.write_values(vals, rec)
+            stage = 'close-w'; p.close()
+            stage = 'open-r'; p = opener(f['table'])(fn, 'r')
+            stage = 'read'
+            got = [p.read_values(rec) for rec, vals in f['cases']]
+            rest = p.readline()
+            p.close()
+            out.append({'ok': True, 'got': got, 'rest': rest})
+        except Exception as e:
+            out.append({'ok': False, 'stage': stage, 'exc': type(e).__name__, 'msg': str(e)[:200]})
+    for h in held: h.close()
+finally:
+    shutil.rmtree(tmp, ignore_errors=True)
+json.dump(out, sys.stdout)
+'''
+
+TABLE_ORDERS = [['t2data', 't2data_extra_precision', 't2incon', 'mulgrid'],
+                ['mulgrid', 't2incon', 't2data_extra_precision', 't2data']]
+LATIN1 = u'grèsüabcdefghijklmnopqrstuvwxyz' * 4          # 'grèsü...'
+MULTIBYTE = u'a日€bcdefghijklmnopqrstuvwxyz' * 4           # 'a日€...' (3-byte characters in UTF-8)
+
+
+def is_ascii(v):
+    return not isinstance(v, str) or all(ord(c) < 128 for c in v)
+
+
+def writable(spec, v):
+    """the string-level writer accepts v in this field (possibly at reduced precision)"""
+    if v is None: return True
+    w, p, typ = parse_spec(spec)
+    if typ == 'x': return True
+    exp = expected_readback(spec, v, None)
+    return not (exp[0] == 'any_of' and not exp[1]) and (typ in 'ef' or len(fmt_text(spec, v)) <= abs(w))
+
+
+def file_cases(table, rng, thorough):
+    """(record, values, kind) for one table: every record kind; ASCII cases hold only writable values"""
+    e_vals = [-1.5, 1e-120, -9.9996e+99, 0.0, -0.0, 2.5e-7, 12345.678, 9.99996, -3.0000000000000004e-101, 1e100]
+    f_vals = [-1.5, 0.0, 99.96, -0.0625, 1234.5, 0.5]
+    out = []
+    for rec, (names, specs) in table.items():
+        base = [neutral(s) for s in specs]
+        out.append((rec, list(base), 'neutral'))
+        for rep in range(3 if thorough else 1):
+            vals = list(base)
+            for i, s in enumerate(specs):
+                w, p, typ = parse_spec(s); aw = abs(w)
+                if typ == 'e': v = rng.choice(e_vals)
+                elif typ == 'f': v = rng.choice(f_vals)
+                elif typ == 'd': v = rng.choice([10 ** aw - 1, 0] + ([-(10 ** (aw - 1) - 1)] if aw >= 2 else []))
+                elif typ == 's': v = ('Zy xwvutsrqponmlkjihgfedcba' * 4)[:rng.randint(0, aw)]
+                else: v = None
+                if writable(s, v): vals[i] = v
+            if len(vals) > 1 and rng.random() < 0.5: vals[rng.randrange(len(vals))] = None
+            out.append((rec, vals, 'mixed'))
+        sidx = [i for i, s in enumerate(specs) if parse_spec(s)[2] == 's']
+        if sidx:
+            vals = list(base)
+            for i in sidx: vals[i] = LATIN1[:abs(parse_spec(specs[i])[0])]
+            out.append((rec, vals, 'latin1-names'))
+            vals = list(base)
+            i = sidx[0]; aw = abs(parse_spec(specs[i])[0])
+            vals[i] = MULTIBYTE[1:1 + aw] if aw < 3 else MULTIBYTE[:aw]
+            out.append((rec, vals, 'multibyte-name'))
+    return out
+
+
+def eval_file(tables, f, res):
+    """failures of one file job: list of (key, case dict, observed, required)"""
+    table = tables[f['table']]
+    ascii_only = all(is_ascii(v) for rec, vals in f['cases'] for v in vals)
+    tag = 'ascii' if ascii_only else 'non-ascii-name'
+    if not res.get('ok'):
+        # loud failure: allowed by the property text for a name the file cannot represent; every value of an
+        # ASCII file is representable (file_cases only keeps values the string-level writer accepts)
+        if ascii_only:
+            return [('file-level:raises-on-representable-value', {}, 'raised %s at %s: %s' % (res.get('exc'), res.get('stage'), res.get('msg')), 'records written and read back')]
+        return []
+    fails = []
+    for k, (rec, vals) in enumerate(f['cases']):
+        names, specs = table[rec]
+        got = res['got'][k]
+        for j, s2 in enumerate(specs):
+            g = got[j] if j < len(got) else '<missing>'
+            if not check_field(expected_readback(s2, vals[j], None), g, s2):
+                own = isinstance(vals[j], str) and not is_ascii(vals[j])
+                what = 'own-field-wrong' if own else ('field-wrong' if ascii_only else 'neighbour-corrupted')
+                fails.append(('file-level:%s:%s' % (tag, what), {'record': rec, 'case': k, 'wrong_field': j, 'spec': s2},
+                              repr(g), 'read-back of %r' % (vals[j],)))
+                break
+    if res.get('rest') not in ('', None):
+        fails.append(('file-level:%s:extra-text-in-file' % tag, {}, repr(res['rest'][:80]), 'end of file after the records'))
+    return fails
+
+
+def run_file_jobs(repo, order, files):
+    import vf
+    return vf.run_impl(FILE_WORKER, {'order': order, 'files': files}, timeout=900, repo=repo)
+
+
+def file_sweep(ctx, thorough=False):
+    """write_values -> real file -> read_values through the library's parser classes"""
+    tables = {t: tab for t, tab, rf in load_tables()}
+    dist = {'files': 0, 'records': 0, 'non_ascii_records': 0, 'loud_non_ascii': 0, 'processes': 0}
+    n = 0
+    for order in TABLE_ORDERS:
+        files, meta = [], []
+        for t in order:
+            cases = file_cases(tables[t], ctx.rng, thorough)
+            plain = [(rec, vals) for rec, vals, kind in cases if kind in ('neutral', 'mixed')]
+            files.append({'table': t, 'cases': plain}); meta.append('ascii-multi-record')
+            for rec, vals, kind in cases:
+                if kind in ('neutral', 'mixed'): continue
+                files.append({'table': t, 'cases': [(rec, vals)]}); meta.append(kind)
+        try:
+            results = run_file_jobs(ctx.repo, order, files)
+        except Exception as e:
+            ctx.failure('file-roundtrip', 'file-level:worker-failed', {'order': order}, str(e)[-600:], 'parsers created and files processed')
+            continue
+        dist['processes'] += 1
+        for f, kind, res in zip(files, meta, results):
+            dist['files'] += 1
+            for rec, vals in f['cases']:
+                n += 1; dist['records'] += 1
+                if kind != 'ascii-multi-record': dist['non_ascii_records'] += 1
+                ctx.count(('file', tuple(order), f['table'], rec, kind, repr(vals)), nontrivial=True)
+            if kind != 'ascii-multi-record' and not res.get('ok'): dist['loud_non_ascii'] += 1
+            if n % 97 == 0: ctx.sample({'file_table': f['table'], 'kind': kind, 'records': [c[0] for c in f['cases']][:5]})
+            for key, where, obs, req in eval_file(tables, f, res):
+                small = f if len(f['cases']) <= 3 else {'table': f['table'], 'cases': [f['cases'][where['case']]] if 'case' in where else f['cases'][:3]}
+                ctx.failure('file-roundtrip', key, dict(where, file=small, order=order, kind=kind), obs, req)
+    ctx.oracle_cases('file-roundtrip', n, **dist)
+    return n
+
+
+def file_replay(ctx, inp):
+    tables = {t: tab for t, tab, rf in load_tables()}
+    f = {'table': inp['file']['table'], 'cases': [(c[0], c[1]) for c in inp['file']['cases']]}
+    res = run_file_jobs(ctx.repo, inp.get('order') or TABLE_ORDERS[0], [f])[0]
+    print('replay(file): %r -> %r' % (f, res))
+    return bool(eval_file(tables, f, res))
